@@ -86,6 +86,12 @@ func c14Describe(c c14Case, res *c14Result) map[string]interface{} {
 
 // c14Judge runs the oracle on a result; returns "" or the violation.
 func c14Judge(r *vr.Report, res *c14Result, truth c14Truth, count bool) (key, what string) {
+	for pos, e := range res.Journal {
+		if e.K == "nofetcher" {
+			return "statesync/syncer.go:fetchChunks:missing-chunk-never-requested-again:no-fetcher-left",
+				fmt.Sprintf("the restore waits for a chunk that is neither in the queue nor requested from any peer (the app asked to refetch it, or discarded its sender), and no fetcher goroutine is left to request it [event %d of: %s]", pos, c14JournalString(res.Journal))
+		}
+	}
 	if res.Inconclusive != "" {
 		return "", ""
 	}
